@@ -582,7 +582,10 @@ func (x *Exec) fire(tr Transition) {
 	if !tr.forced {
 		t.fresh = false
 	}
-	t.res = commResult{idx: tr.Case}
+	if o.kind != opResume {
+		// a thread resumed after a rendezvous keeps the result its partner's transition gave it
+		t.res = commResult{idx: tr.Case}
+	}
 	if o.kind == opComm && tr.Partner != nil {
 		s := tr.Partner
 		t.res = commResult{idx: tr.Case, val: s.op.cases[tr.PCase].val, ok: true, direct: true}
